@@ -168,18 +168,77 @@ class IngestWorld(object):
   # ---------------------------------------------------------------- clients
   def open_clients(self):
     P = self.w.protocols
+    from .reactor import SimPort
     self.clients = []
+    # the listening port, as CarbonService would register it (connection limit)
+    self.port = SimPort(self.r, 2003, None)
+    self.w.state.listeningPorts.append(self.port)
+    self.timeout = self.w.settings.METRIC_CLIENT_IDLE_TIMEOUT
     for i, c in enumerate(self.plan['clients']):
-      st = {'spec': c, 'pos': 0, 'item': 0, 'void': False, 'pending': 0, 'got_total': 0}
+      st = {'spec': c, 'pos': 0, 'item': 0, 'void': False, 'pending': 0, 'got_total': 0, 't': None,
+            'active': None, 'closed': False}
       if c['kind'] == 'udp':
         proto = P.MetricDatagramReceiver()
         proto.peerName = 'udp'
         st['proto'] = proto
-      else:
-        f = P.CarbonReceiverFactory()
-        f.protocol = {'line': P.MetricLineReceiver, 'pickle': P.MetricPickleReceiver}[c['kind']]
-        st['t'] = self.r.accept(f, peer=('10.1.0.%d' % (i + 1), 40000 + i), label='c%d' % i)
       self.clients.append(st)
+    if not self.plan.get('late_connect'):
+      for ci in range(len(self.clients)):
+        self.connect(ci)
+
+  def connect(self, ci):
+    """A TCP client connects (now, or when the paused listening port accepts again)."""
+    st = self.clients[ci]
+    c = st['spec']
+    if c['kind'] == 'udp' or st['t'] is not None or st['void']:
+      return st['t'] is not None
+    if self.port.paused:
+      self.ctx.probe('client_waits_in_backlog')
+      return False
+    P = self.w.protocols
+    f = P.CarbonReceiverFactory()
+    f.protocol = {'line': P.MetricLineReceiver, 'pickle': P.MetricPickleReceiver}[c['kind']]
+    t = self.r.accept(f, peer=('10.1.0.%d' % (ci + 1), 40000 + ci), label='c%d' % ci)
+    if t is None:
+      self.ctx.probe('connection_refused_at_limit')
+      st['void'] = True
+      return False
+    st['t'] = t
+    st['active'] = self.r.seconds()
+    if not t.reading:
+      self.ctx.probe('connected_while_paused')
+    return True
+
+  def client_done(self, ci):
+    """The client has sent everything: it closes its connection (frees a slot)."""
+    st = self.clients[ci]
+    if st['closed'] or st['t'] is None or st['spec']['kind'] == 'udp':
+      return
+    if st['pos'] >= len(st['spec']['stream']) and not st['t'].disconnected:
+      st['closed'] = True
+      st['t'].peer_close()
+      self.r.run_due()
+      for cj in range(len(self.clients)):
+        self.connect(cj)
+
+  def closed_by_server(self, ci):
+    """The server closed this client's connection between two segments: legitimate only
+    as an idle timeout (no datapoint for METRIC_CLIENT_IDLE_TIMEOUT seconds)."""
+    st = self.clients[ci]
+    t = st['t']
+    if st['void'] or st['closed'] or t is None or not t.disconnected:
+      return False
+    st['void'] = True
+    idle = self.r.seconds() - (st['active'] if st['active'] is not None else self.r.seconds())
+    if self.timeout is not None and t.closed_by == 'local' and idle >= self.timeout - 1e-6:
+      self.ctx.probe('idle_timeout_closed_connection')
+      return True
+    self.ctx.violation('C11' if self.prop == 'C11' else self.prop, 'connection-dropped', st['spec']['kind'],
+                       '%s client %d: server closed the connection (%s) %.3fs after its last datapoint '
+                       '(idle timeout %r) with %d bytes still to come' % (
+                         st['spec']['kind'], ci, t.closed_by, idle, self.timeout,
+                         len(st['spec']['stream']) - st['pos']))
+    return True
 
   def compare(self, ci, expected, what):
     got = self.got
@@ -221,8 +280,11 @@ class IngestWorld(object):
     stream = spec['stream']
     if st['pos'] >= len(stream):
       return
+    if st['t'] is None and not self.connect(ci):
+      return
     t = st['t']
     if t.disconnected:
+      self.closed_by_server(ci)
       return
     if not t.reading:
       self.ctx.probe('segment_held_by_pause')
@@ -257,6 +319,8 @@ class IngestWorld(object):
       st['void'] = True
       self.got = []
       return
+    if expected:
+      st['active'] = self.r.seconds()
     self.compare(ci, expected, 'after byte %d' % st['pos'])
     self.r.run_due()
     if t.disconnected or t.disconnecting:
@@ -339,10 +403,21 @@ class IngestWorld(object):
       elif k == 'dgram':
         self.dgram(step[1] % len(self.clients), step[2])
       elif k == 'pause':
-        self.w.events.pauseReceivingMetrics()
-        ctx.fault('receiver_pause')
+        # the flow-control pause; without USE_FLOW_CONTROL nothing in carbon-cache pauses
+        # receivers, so the step is void
+        if self.w.settings.USE_FLOW_CONTROL:
+          self.w.events.pauseReceivingMetrics()
+          ctx.fault('receiver_pause')
       elif k == 'pause_at':
-        self.pause_after = step[1]
+        if self.w.settings.USE_FLOW_CONTROL:
+          self.pause_after = step[1]
+      elif k == 'cachefull':
+        # what the cache signals when it is nearly full (pauses receivers only under
+        # flow control)
+        self.w.events.cacheFull()
+        ctx.fault('cache_full_signal')
+      elif k == 'cachespace':
+        self.w.events.cacheSpaceAvailable()
       elif k == 'resume':
         self.w.events.resumeReceivingMetrics()
       elif k == 'advance':
@@ -353,10 +428,31 @@ class IngestWorld(object):
         boot.write_file(step[1], step[2], int(self.r.seconds()) + 1)
         ctx.fault('list_file_' + ('deleted' if step[2] is None else 'rewritten'))
     # deliver whatever is left, in one chunk per client
-    self.w.events.resumeReceivingMetrics()
+    self.pause_after = None
+    for rounds in range(len(self.clients) + 1):
+      self.w.events.cacheSpaceAvailable()
+      self.w.events.resumeReceivingMetrics()
+      for ci, st in enumerate(self.clients):
+        if st['spec']['kind'] != 'udp':
+          self.seg(ci, 1 << 30)
+          self.client_done(ci)
     for ci, st in enumerate(self.clients):
-      if st['spec']['kind'] != 'udp':
-        self.seg(ci, 1 << 30)
+      spec = st['spec']
+      if spec['kind'] == 'udp' or st['void'] or st['pos'] >= len(spec['stream']):
+        continue
+      if st['t'] is None:
+        ctx.violation(self.prop, 'client-never-accepted', spec['kind'],
+                      '%s client %d was never accepted although every other client has finished and '
+                      'left (listening port paused=%r, %d connected receivers, limit %r)' % (
+                        spec['kind'], ci, self.port.paused,
+                        len(self.w.state.connectedMetricReceiverProtocols),
+                        self.w.settings.MAX_RECEIVER_CONNECTIONS))
+      elif not st['t'].disconnected and not st['t'].reading:
+        ctx.violation(self.prop, 'receiver-never-resumed', spec['kind'],
+                      '%s client %d: %d bytes were never read: its connection is still paused although '
+                      'space was signalled and receivers were resumed (USE_FLOW_CONTROL=%r)' % (
+                        spec['kind'], ci, len(spec['stream']) - st['pos'],
+                        self.w.settings.USE_FLOW_CONTROL))
     if self.got:
       ctx.violation(self.prop, 'unexpected-datapoint', 'end', 'stray datapoints %r' % (self.got[:5],))
     if self.w.settings.USE_WHITELIST:
